@@ -443,6 +443,7 @@ def apply_num(eng, st, inp, rt, mode, order, ty):
         else:
             val = eng.named_int(name, w * 8, ty.startswith("i"))
         note(ns, ("rd", base, off, w, oc, name))
+        eng.rd_syms[name] = (base, off, w, oc)
         outs.append(("ok", ns, Slice(base, off.add(w), ln.sub(w), inp.elem), val))
     except Dead:
         pass
